@@ -127,6 +127,11 @@ def _other_model(objs, cfg, calls):
         yrs = 1 + calls % 3
         st = pd.Timestamp(cfg["start"]) + pd.DateOffset(years=yrs); en = pd.Timestamp(cfg["end"]) + pd.DateOffset(years=yrs)
         o = dict(objs, sim_start_time=st.strftime("%Y/%m/%d"), sim_end_time=en.strftime("%Y/%m/%d"))
+        # ... except the CO2 object, of which the other model gets its own copy: a model keeps the user's CO2 object by reference and
+        # reads its current concentration on every day (the season-start CO2 adjustment is written there: the exception C12 names), so two
+        # LIVE models on one CO2 object are outside what any listed property promises (observation, DESIGN 15.10; not a finding)
+        if o.get("co2_concentration") is not None:
+            o["co2_concentration"] = copy.deepcopy(o["co2_concentration"])
         other = sim.AquaCropModel(**o)
         if calls % 2:
             other._initialize()
